@@ -14,6 +14,7 @@ Definition direct_tcp (shape : N) (ls ts : list N) : list N :=
   | 3 => [T; 1; 1; 4; 1; 0]                 (* target wrote and closed: local gets it all, then EOF *)
   | 4 => [0; 1; 0; 4 + L; 1; 1]             (* local wrote and closed: target gets it all, then EOF *)
   | 7 => [0; 1; 1; 4 + 3145728; 1; 1]       (* slow, half-closed target: the whole 3 MB upload arrives, then EOF *)
+  | 10 => [0; 1; 0; 0; 1; 0]               (* a local client that gives up at once: nothing is observed of it *)
   | 6 => [T; 1; 1; 0; 1; 0]                 (* target answered, then closed while the local client uploads: the upload fails *)
   | _ => [0; 1; 1; 0; 1; 0]                 (* refused: the local connection is closed *)
   end.
@@ -46,6 +47,7 @@ Definition run_tunnel (c : list N) : list N :=
   match c with
   | 1 :: _entry :: _variant :: nconn :: r => tcp_conns (N.to_nat nconn) r
   | 2 :: _entry :: _shared :: _variant :: ncl :: r => udp_clients (N.to_nat ncl) r
+  | [4; _entry; _n] => [1; 0; 1; 1; 1]      (* after a burst of replies (some may be dropped) the exchange works as before *)
   | [3; _entry; n; _gap] => [n; 0; 1; 1; n]    (* a slow UDP client: every datagram answered, whatever the idle time *)
   | _ => MALFORMED
   end.
